@@ -538,6 +538,11 @@ class MailboxSet(MailboxSetInterface[MailboxData]):
             elif part in ('cur', 'new', 'tmp'):
                 # would be a sub-directory of the parent's own maildir
                 raise exc_type(name)
+            elif part.startswith(('dovecot-', 'dovecot.')) \
+                    or part in ('maildirfolder', 'subscriptions',
+                                'subscriptions.lock'):
+                # would take the place of one of the parent's own files
+                raise exc_type(name)
         try:
             if len(os.fsencode(name)) > 240:
                 raise exc_type(name)
